@@ -399,7 +399,7 @@ def run_case(seed_key, tier: str, *, replay_only: bool = False):
             res = sim.build(**kw)
             after = ck.snapshot(sim.root)
             records = probe.take()
-            truth.note_build(res.runs, kw.get("external", ()))
+            truth.note_build(res.runs, kw.get("external", ()), model)
             count("builds")
             count(f"build-status-{res.status}")
             if res.status != "done":
@@ -604,7 +604,7 @@ async def correspond(ctx):
 
 
 async def search(ctx):
-    await run_histories(ctx, "oracle-hist", ctx.budget(260, 5000), with_model=False)
+    await run_histories(ctx, "oracle-hist", ctx.budget(260, 4000), with_model=False)
 
 
 async def replay(ctx, detail):
